@@ -103,6 +103,8 @@ def jobs(tier):
             if q and acks == -1:
                 continue
             out.append({"kind": "e2e", "acks": acks, "batch": batch, "codec": CODEC_GZIP if batch else CODEC_NONE, "third": batch})
+    # the application stops the producer at a symbolic point of the exchange
+    out.append({"kind": "e2e", "acks": 1, "batch": False, "codec": CODEC_NONE, "third": False, "stop": True})
     return out
 
 
